@@ -17,17 +17,11 @@
 //               cycle in which an element ticked or a key disappeared.
 #include "hk_ho.h"
 
-#ifndef NKEYS
-#define NKEYS 3
-#endif
-#ifndef BULK
-#define BULK 0
-#endif
-#ifndef NCYC
-#define NCYC 3
-#endif
-#ifndef EXTRA_OPS
-#define EXTRA_OPS 0
+// One binary covers several configurations {NKEYS, BULK, NCYC, EXTRA_OPS} (enumerated first, so shards split on them):
+//   NKEYS individually scripted keys; BULK further keys acted on as one group; NCYC cycles in which the source acts;
+//   EXTRA_OPS 1: an absent key may also be created without a value (phantom) or be added and removed within one cycle
+#ifndef CONFIGS
+#define CONFIGS {3, 0, 3, 0}, {1, 4, 3, 0}, {2, 0, 3, 1}
 #endif
 #ifndef NFUNC      // functions explored: 0 inc, 1 running sum, 2 key-consuming, 3 self-scheduling, 4 broadcast arg, 5 late (silent first tick)
 #define NFUNC 6
@@ -40,18 +34,23 @@ using namespace hk;
 
 namespace {
 using U = std::uint64_t;
-constexpr int NK = NKEYS + BULK;
+struct Cfg { int nkeys, bulk, ncyc, extra; };
+constexpr Cfg CFGS[] = {CONFIGS};
+constexpr int NCFG = sizeof(CFGS) / sizeof(CFGS[0]);
+constexpr int MAXK = 16;
+Cfg G{};
+int NKEYS = 0, BULK = 0, NK = 0, NCYC = 0;
 using Dict = TSD<Int, TS<Int>>;
 enum { A_NONE = 0, A_SET, A_REMOVE, A_READD, A_PHANTOM, A_ADDREMOVE };
 
 int g_func = 0;
 // ---- script of the current cycle (filled by the source, consumed by the checker) ----
-int g_act[NK];
-Int g_v[NK];
+int g_act[MAXK];
+Int g_v[MAXK];
 bool g_btick = false;
 Int g_bv = 0;
 // ---- source-side bookkeeping ----
-bool s_present[NK];   // key in the source key set (with or without value)
+bool s_present[MAXK];   // key in the source key set (with or without value)
 // ---- model of the per-key instances ----
 struct Inst {
     bool exists = false;
@@ -64,7 +63,7 @@ struct Inst {
     bool out_valid = false;
     Int out = 0;
 };
-Inst m_inst[NK];
+Inst m_inst[MAXK];
 bool m_b_valid = false;
 Int m_b = 0;
 // ---- observations ----
@@ -75,7 +74,7 @@ bool ok_keys = true, ok_valid = true, ok_value = true, ok_ticks = true, ok_forei
 bool r_removed = false, r_readd = false, r_fresh = false, r_phantom = false, r_three = false, r_five = false, r_wake = false,
      r_wake_dropped = false, r_bcast = false, r_silent = false, r_slot_reuse = false;
 bool ever_removed = false;
-bool had_state[NK];
+bool had_state[MAXK];
 
 inline Int cyc(DateTime now) { return (now - MIN_ST).count(); }
 
@@ -134,7 +133,7 @@ struct DictSrc {
     }
     static void apply_key(int k, const OutT &out) {
         bool present = s_present[k];
-        int nopt = present ? 4 : (EXTRA_OPS ? 4 : 2);
+        int nopt = present ? 4 : (G.extra ? 4 : 2);
         int a = verif_choice("act", nopt);
         if (a == 0) return;
         if (!present) {
@@ -332,7 +331,10 @@ struct Top {
 
 extern "C" int harness_main() {
     register_ho_scalars();
-    g_func = FUNC0 + verif_choice("func", NFUNC);
+    G = CFGS[NCFG > 1 ? verif_choice("cfg", NCFG) : 0];
+    NKEYS = G.nkeys; BULK = G.bulk; NK = NKEYS + BULK; NCYC = G.ncyc;
+    if (NK > MAXK) { verif_fail("C10.harness_configuration"); return 0; }
+    g_func = FUNC0 + (NFUNC > 1 ? verif_choice("func", NFUNC) : 0);
     run_sim(build_graph<Top>(), MIN_ST, MIN_ST + TimeDelta{NCYC + 3});
 
     verif_assert(g_checks == NCYC + 1, "C10.checker_ran_every_cycle");
